@@ -371,7 +371,8 @@ def run_property(modname, tier="quick", only=None, max_shards=None, verbose=Fals
             validation_skipped_set_order_not_exhibited=order_mismatch,
             counterexamples_replayed=len(rjobs), counterexample_groups=len(groups),
             order_dependent_counterexamples_not_reproduced_on_this_cpython=len(order_only),
-            known_findings_hit=sorted(known_hits), inconclusive=problems,
+            known_findings_hit=sorted(known_hits),
+            known_findings_claims={w[:60]: sorted({x['label'] for x in vs}) for w, vs in known_hits.items()}, inconclusive=problems,
             explore_wall_s=round(explore_s, 1), validate_wall_s=round(validate_s, 1),
             repo=REPO, processes=NPROC,
         ),
